@@ -83,7 +83,18 @@ type callResult struct {
 var callTimeout = 5 * time.Second
 
 // safeParse runs an entry point under recover and a wall-clock deadline.
+// safeParse runs one entry point under recover and a deadline. A call that misses the deadline is run once more, alone, with
+// a deadline twelve times as long before it is called hung: on a loaded machine (or under the race detector) a slow call is not
+// a looping call, and "returns in bounded time" must not depend on the load.
 func safeParse(e *entry, s string) callResult {
+	r := safeParseWithin(e, s, callTimeout)
+	if r.hung {
+		r = safeParseWithin(e, s, 12*callTimeout)
+	}
+	return r
+}
+
+func safeParseWithin(e *entry, s string, limit time.Duration) callResult {
 	ch := make(chan callResult, 1)
 	go func() {
 		var r callResult
@@ -98,7 +109,7 @@ func safeParse(e *entry, s string) callResult {
 	select {
 	case r := <-ch:
 		return r
-	case <-time.After(callTimeout):
+	case <-time.After(limit):
 		return callResult{hung: true}
 	}
 }
